@@ -164,10 +164,20 @@ fn c03_pin_info_loop2() {
     assert!(g::has(b.pinned.to_u64(), q) == r::is_pinned(&p, q), "VERIF update_pin_info (<= 2 pinners) pinned at {}", q);
 }
 
+/// contract abstraction of update_pin_info (discharged by C03.pin_info.body / pin_lemma / loop2): requires one
+/// king each; only the two cached sets change and they equal the from-scratch spec
+fn pin_info_contract_stub(b: &mut Board) {
+    let p = view(b);
+    assert!(r::one_king_each(&p), "VERIF update_pin_info called without exactly one king per side");
+    b.checkers = kani::any();
+    b.pinned = kani::any();
+    kani::assume(b.checkers.to_u64() == r::checkers_spec(&p) && b.pinned.to_u64() == r::pinned_spec(&p));
+}
 /// BoardBuilder::build(): Ok(b) only if validate() accepted, and b differs from the builder's board only
 /// in the two cached sets, which equal the spec
 #[kani::proof]
-#[kani::unwind(17)]
+#[kani::unwind(9)]
+#[kani::stub(crate::Board::update_pin_info, pin_info_contract_stub)]
 fn c06_build() {
     let inner = any_board();
     let builder = crate::BoardBuilder { board: inner };
